@@ -160,6 +160,11 @@ func c01AddWhen(s *c01Stmt, w *string) {
 	}
 	switch s.T {
 	case tNode:
+		if s.K >= kAction {
+			// an rpc/action or notification takes no condition (no `when` sub-statement): the
+			// copy that a conditional uses makes of it is unconditional as well
+			return
+		}
 		s.P.When = c01And(*w, s.P.When)
 	case tUses:
 		s.W = c01And(*w, s.W)
@@ -315,7 +320,7 @@ func (ms *c01Modset) extractGrouping(site c01Site, n int, name string) bool {
 	}
 	block := append([]*c01Stmt(nil), (*site.list)[site.idx:site.idx+n]...)
 	for _, b := range block {
-		if b.T == tNode && b.K == kCase {
+		if b.T == tNode && (b.K == kCase || b.K == kInput || b.K == kOutput) {
 			return false
 		}
 	}
